@@ -281,6 +281,8 @@ Definition merge_next (rel : bool) (s : st) (blk : block) : res st :=
 
 (* free(addr)   (addr is not None) *)
 Definition free (rel : bool) (s : st) (addr : Z) : res st :=
+  (* "if not 0 <= addr - self.addr_offset < self.size: return"  (fix of D2: no negative indexing) *)
+  if negb ((0 <=? addr - off s) && (addr - off s <? size s)) then Ok s else
   b <- aget (arr s) (addr - off s) ;;
   match b with
   | Some blk =>
